@@ -41,7 +41,7 @@ let opname = function
 let errname (raw : M.rtok list) : string =
   (* the error token that ended the raw stream *)
   let rec last = function [] -> "other" | [M.RErr e] -> (match e with
-      | M.EBrace -> "brace" | M.EKeyword -> "keyword" | M.EChar c -> Printf.sprintf "char:%02x" (int_of_n c))
+      | M.EBrace _ -> "brace" | M.EKeyword _ -> "keyword" | M.EChar c -> Printf.sprintf "char:%02x" (int_of_n c))
     | _ :: r -> last r in
   last raw
 let string_of_token raw = function
@@ -81,7 +81,8 @@ let () =
          let flags = { M.f_noconv = (f land 1 <> 0); M.f_int = (f land 2 <> 0); M.f_eol = (f land 4 <> 0) } in
          let raw = M.tokens (bytes_of_hex hex) in
          let toks = M.pull_all flags raw in
-         print_string ("TOKS " ^ String.concat " " (List.map (string_of_token raw) toks))
+         print_string ("TOKS " ^ String.concat " " (List.map (string_of_token raw) toks)
+                       ^ " ALLOC:" ^ string_of_int (int_of_n (M.final_allocation raw)))
        | ["npd"; hex] ->
          let lines = M.npd_lines (bytes_of_hex hex) in
          let buf = Buffer.create 256 in
